@@ -41,8 +41,30 @@ def e_pairs(l):
 
 
 def sv(v):
-    """what `str(value)` gives for the non-text values the streams use"""
+    """what `str(value)` gives for the non-text values the streams use; {"o": text} stands for an
+    object whose `__str__` returns `text` (a header datastructure, any object)"""
+    if isinstance(v, dict) and "o" in v:
+        return v["o"]
     return v if isinstance(v, str) else str(v)
+
+
+class StrObj:
+    """a non-str header value: only `str(value)` says what it is"""
+
+    def __init__(self, text):
+        self.text = text
+
+    def __str__(self):
+        return self.text
+
+
+def pv(v):
+    """the Python value of a case value"""
+    if isinstance(v, dict) and "o" in v:
+        return StrObj(v["o"])
+    if isinstance(v, list):
+        return [pv(x) for x in v]
+    return v
 
 
 def mv_list(v):
@@ -782,25 +804,25 @@ def hdr_consistency(h, probes):
 def hdr_apply(h, op, ds):
     n = op[0]
     if n == "add":
-        return h.add(op[1], op[2])
+        return h.add(op[1], pv(op[2]))
     if n == "set":
-        return h.set(op[1], op[2])
+        return h.set(op[1], pv(op[2]))
     if n == "setlist":
-        return h.setlist(op[1], list(op[2]))
+        return h.setlist(op[1], pv(list(op[2])))
     if n == "setdefault":
-        return h.setdefault(op[1], op[2])
+        return h.setdefault(op[1], pv(op[2]))
     if n == "setlistdefault":
-        return h.setlistdefault(op[1], list(op[2]))
+        return h.setlistdefault(op[1], pv(list(op[2])))
     if n in ("extend", "update"):
         f = getattr(h, n)
         a = py_arg(op[1], ds.MultiDict, ds.Headers)
         kw = py_kw(op[2])
         return f(a, **kw) if a is not None else f(**kw)
     if n == "setitem":
-        h[op[1]] = op[2]
+        h[op[1]] = pv(op[2])
         return None
     if n == "setidx":
-        h[op[1]] = (op[2], op[3])
+        h[op[1]] = (op[2], pv(op[3]))
         return None
     if n == "setslice":
         h[op[1] : op[2]] = [(k, v) for k, v in op[3]]
@@ -1351,6 +1373,7 @@ class HeadersStream(OpsStream):
             ["popidx", -2],
             ["clear"],
         ]
+        + [["add", "a", {"o": "obj\r\nX: 1"}], ["set", "b", {"o": "fine"}], ["setitem", "a", {"o": "\n"}], ["setlist", "a", ["1", {"o": "2\r"}]], ["setdefault", "zz", {"o": "v\n"}], ["setidx", 0, "a", {"o": "q\rq"}]]
         + [["add", "a", "x\ny"], ["set", "b", "x\r"], ["setlist", "a", ["1", "2\n"]], ["extend", ["P", [["a", "1"], ["b", "\r"]]], []], ["setidx", 0, "a", "\n"], ["setslice", 0, 1, [["a", "ok"], ["b", "\n"]]], ["update", ["D", [["a", ["1", "\n"]]]], []], ["setdefault", "zz", "\n"], ["setdefault", "a", "\n"], ["setlistdefault", "zz", ["1", "\r\n"]]]
     )
     CORE = [
